@@ -18,6 +18,10 @@ let table : (string * (z list -> z list)) list = [
   ("hair_spans", run_hair_spans);
   ("dash_new", run_dash_new);
   ("dash", run_dash);
+  ("grad_new", run_grad_new);
+  ("grad_px", (fun _ -> [Model.Zneg (Model.XI (Model.XO (Model.XO Model.XH)))]));
+  ("stroker_hist", (fun _ -> [Model.Zneg (Model.XI (Model.XO (Model.XO Model.XH)))]));
+  ("draw_hist", (fun _ -> [Model.Zneg (Model.XI (Model.XO (Model.XO Model.XH)))]));
   ("wide", run_wide);
   ("scene", (fun _ -> [Model.Zneg (Model.XI (Model.XO (Model.XO Model.XH)))]));
   ("wide_config", (fun _ -> [Model.Zneg (Model.XI (Model.XO (Model.XO Model.XH)))]));
